@@ -20,6 +20,10 @@ package http2
 //   VerifC15_requestValidation processHeaders on requests from a table of malformed / connection-specific header
 //                              sets: rejected with a stream error, or answered by the built-in 400 handler; the user
 //                              handler is never the one scheduled
+//   VerifC15_connSpecificValues same unit, but the VALUES are symbolic: one extra field (each connection-specific
+//                              name, te, or a harmless one) on 1..2 field lines with arbitrary bytes of bounded length;
+//                              reference = RFC 9113 8.2.2: any connection-specific field rejects the request whatever
+//                              its value, te is accepted only as a single line that is empty or exactly "trailers"
 //
 // Sensitivity (mut.sh; all caught and confirmed natively):
 //   write.go writePingAck answering with zeroed data                 VerifC15_ping "PING ACK carries the same 8 bytes"
@@ -27,6 +31,8 @@ package http2
 //                                                                     "add DATA on non-open stream")
 //   server.go scheduleHandler `curHandlers < max` -> `<=`             VerifC15_handlerStep, VerifC15_headersLimit
 //   server.go handlerDone without `sc.curHandlers--`                  VerifC15_handlerStep "exactly the started handlers run"
+//   server.go checkValidHTTP2RequestHeaders: exact `te[0] != "trailers"` replaced by a token-list test
+//   (HeaderValuesContainsToken)                                       VerifC15_connSpecificValues "te other than exactly trailers"
 
 import (
 	"net/http"
@@ -41,6 +47,7 @@ func init() {
 	vfRegister("VerifC15_handlerStep", VerifC15_handlerStep)
 	vfRegister("VerifC15_headersLimit", VerifC15_headersLimit)
 	vfRegister("VerifC15_requestValidation", VerifC15_requestValidation)
+	vfRegister("VerifC15_connSpecificValues", VerifC15_connSpecificValues)
 }
 
 func c15connErr(err error, code ErrCode) bool {
@@ -512,5 +519,80 @@ func VerifC15_requestValidation() {
 		}
 	}
 	vfObserve("calls", uint64(calls))
+	vfReach("end")
+}
+
+func c15valueBound() int {
+	if vfTier() > 0 {
+		return 16
+	}
+	return 10 // "trailers" plus a list separator and one more byte on either side
+}
+
+// (e') the same decision over symbolic field VALUES. RFC 9113 section 8.2.2: "An endpoint MUST NOT generate an HTTP/2
+// message containing connection-specific header fields [...] The only exception to this is the TE header field, which
+// MAY be present in an HTTP/2 request; when it is, it MUST NOT contain any value other than "trailers"". So the
+// verdict depends on the NAME alone for the five connection-specific fields, and for te on the number of field lines
+// and on the complete value (no list, no other case, no parameters). An empty te value carries no transfer coding and
+// is accepted (as the code behaves).
+func VerifC15_connSpecificValues() {
+	sc, _ := h2sNewServerConn(h2sSchedRFC9218)
+	calls := 0
+	sc.handler = c15handler{&calls, false}
+	sc.advMaxStreams, sc.curHandlers, sc.curClientStreams = 1, 1, 0 // as in VerifC15_requestValidation: handler gets queued
+	names := []string{"connection", "keep-alive", "proxy-connection", "transfer-encoding", "upgrade", "te", "accept-language"}
+	k := vfChoice("field", len(names))
+	lines := vfLen("lines", 1, 2)
+	// first (or only) value: up to c15valueBound() arbitrary bytes; a second field line carries a short value
+	v0 := vfString("value0", vfLen("len0", 0, c15valueBound()))
+	fields := []string{":method", "GET", ":scheme", "https", ":authority", "a", ":path", "/"}
+	// the field under test stands before or after an unrelated regular field
+	first := vfChoice("position", 2) == 0
+	if !first {
+		fields = append(fields, "user-agent", "x")
+	}
+	fields = append(fields, names[k], v0)
+	if lines == 2 {
+		fields = append(fields, names[k], vfString("value1", vfLen("len1", 0, 2+2*vfTier())))
+	}
+	if first {
+		fields = append(fields, "user-agent", "x")
+	}
+	err := sc.processHeaders(c15headers(1, true, fields...))
+	vfAssert(err == nil, "request accepted for a response (user handler or built-in 400)")
+	vfAssert(len(sc.unstartedHandlers) == 1, "one handler queued")
+	u := sc.unstartedHandlers[0]
+	w := &c15rw{h: make(http.Header)}
+	u.handler(w, u.req)
+	reached := calls == 1
+	vfAssert(calls <= 1, "at most one invocation")
+	if !reached {
+		vfAssert(w.status == 400, "a request that does not reach the user handler is answered 400 by the built-in handler")
+	}
+	switch {
+	case k < 5:
+		vfAssert(!reached, "connection-specific header field (any value) never reaches the user handler")
+		vfReach("connection-specific rejected")
+	case k == 5:
+		if lines > 1 {
+			vfAssert(!reached, "more than one te field line never reaches the user handler")
+			vfReach("te twice rejected")
+		} else if v0 == "" || v0 == "trailers" {
+			vfAssert(reached, "te: trailers (or empty) is allowed")
+			if v0 == "" {
+				vfReach("te empty accepted")
+			} else {
+				vfReach("te trailers accepted")
+			}
+		} else {
+			vfAssert(!reached, "te other than exactly trailers never reaches the user handler")
+			vfReach("te other rejected")
+		}
+	default:
+		vfAssert(reached, "an ordinary header field with any value reaches the user handler")
+		vfReach("ordinary accepted")
+	}
+	vfObserve("calls", uint64(calls))
+	vfObserve("status", uint64(w.status))
 	vfReach("end")
 }
